@@ -7,3 +7,15 @@ import "context"
 // Injected by the verification overlay (not part of the repository): runs one periodic round exactly as
 // the ticker loop does.
 func (c *HTTPHealthChecker) VerifPeriodicRound(ctx context.Context) { c.performHealthChecks(ctx) }
+
+// VerifCheckAll checks every endpoint now, whatever its NextCheckTime, as the forced RunHealthCheck does
+// (which additionally needs the ticker loop to be running).
+func (c *HTTPHealthChecker) VerifCheckAll(ctx context.Context) {
+	endpoints, err := c.repository.GetAll(ctx)
+	if err != nil {
+		return
+	}
+	for _, ep := range endpoints {
+		c.checkEndpointSafely(ctx, ep)
+	}
+}
